@@ -184,6 +184,10 @@ def analyse(repo):
     m2m = find_func(core, 'Set.construct_sql_m2m')
     a = [src(x.value) for x in assigns(m2m, 'cache_key')]
     if a != ['-items_count', 'batch_size']: raise Unknown('Set.construct_sql_m2m: cache_key = %r' % a)
+    # create_extractors: is a hit re-validated against the classification of the called names in the new scope
+    ce = find_func(asttr, 'create_extractors')
+    ces = src(ce)
+    f['extractorsRecheck'] = ('call_kinds' in ces and 'classify_callable' in ces and 'outer_names)' in ces and 'frozenset(outer_names)' in ces)
     # clear points of the result cache
     clear_points = []
     for cls in core.body:
@@ -227,6 +231,8 @@ def render(f):
     lines.append('def loadStoreRebound : Bool := %s' % b(f['loadStoreRebinds']))
     lines.append('/-- `Database.insert`: the key is ONE flat tuple `(table,) + columns [+ (returning,)]` -/')
     lines.append('def dbInsertKeyFlat : Bool := %s' % b(f['dbInsertKeyFlat']))
+    lines.append('/-- `create_extractors` re-validates a hit: classification of the called names in the new scope + the outer names -/')
+    lines.append('def extractorsRecheck : Bool := %s' % b(f['extractorsRecheck']))
     lines.append('/-- `Entity.flush` contains `query_results.clear()` -/')
     lines.append('def entityFlushClearsResults : Bool := %s' % b(f['entityFlushClearsResults']))
     lines.append('/-- `Query._aggregate` / `Query._actual_fetch` call `prepare_connection_for_query_execution()` before the lookup -/')
